@@ -1,14 +1,15 @@
-// Command fs is the implementation-side driver, generator and oracle of the `fs` line protocol
-// (filespace family, properties C01–C07; protocol described in /verif/lean/Driver/FS.lean).
+// Command fs is the implementation-side driver, generator and oracle of the `fs` line protocol for
+// property C01 (in-memory filespace).  Everything reusable lives in gcverif/internal/fsdrv (protocol
+// interpreter, registries of backend kinds and extra commands, generators, flat reference oracle);
+// the protocol is described in /verif/lean/Driver/FSCore.lean, how other families (C02–C07) add
+// their own kinds in /verif/notes/FS_EXTENDING.md.  This command registers nothing: kind `mem` is
+// built into fsdrv.
 //
 //	fs drive [-stats <file>] [-nohash]   op lines on stdin -> one result line per op on stdout, real code of /repo
 //	fs gen <n> [<shard> <nshards>]       n random C01 histories (this shard's share), seeded from VERIF_SEED
-//	fs genx <maxlen> [<shard> <nshards>] exhaustive small-scope histories (see gen.go)
+//	fs genx <maxlen> [<shard> <nshards>] exhaustive small-scope histories (see fsdrv/genx.go)
 //	fs oracle <n> [<shard> <nshards>]    property oracle: real code against the flat reference, no Lean model
 //	fs refcheck                          the same comparison on the op lines given on stdin (used on minimised replays)
-//
-// Files: backend.go (factory `newFS`, extension point for further backends), drive.go (protocol
-// interpreter, alias probes, dump), gen.go (generators), oracle.go (reference + oracle).
 package main
 
 import (
@@ -16,18 +17,9 @@ import (
 	"fmt"
 	"os"
 	"strconv"
-)
 
-func shardArgs(a []string) (int, int) {
-	if len(a) >= 2 {
-		s, _ := strconv.Atoi(a[0])
-		n, _ := strconv.Atoi(a[1])
-		if n > 0 && s >= 0 && s < n {
-			return s, n
-		}
-	}
-	return 0, 1
-}
+	"gcverif/internal/fsdrv"
+)
 
 func main() {
 	w := bufio.NewWriterSize(os.Stdout, 1<<20)
@@ -35,38 +27,36 @@ func main() {
 	ew := bufio.NewWriter(os.Stderr)
 	defer ew.Flush()
 	if len(os.Args) < 2 {
-		fmt.Fprintln(os.Stderr, "usage: fs drive [-stats file] [-nohash] | gen <n> [shard nshards] | genx <maxlen> [shard nshards] | oracle <n>")
+		fmt.Fprintln(os.Stderr, "usage: fs drive [-stats file] [-nohash] | gen <n> [shard nshards] | genx <maxlen> [shard nshards] | oracle <n> [shard nshards] | refcheck")
 		os.Exit(2)
+	}
+	num := func() int {
+		if len(os.Args) < 3 {
+			fmt.Fprintln(os.Stderr, "missing <n>")
+			os.Exit(2)
+		}
+		n, _ := strconv.Atoi(os.Args[2])
+		return n
 	}
 	switch os.Args[1] {
 	case "drive":
-		statsPath, noHash := "", false
-		for i := 2; i < len(os.Args); i++ {
-			switch os.Args[i] {
-			case "-stats":
-				i++
-				statsPath = os.Args[i]
-			case "-nohash":
-				noHash = true
-			}
-		}
-		drive(os.Stdin, w, statsPath, noHash)
+		fsdrv.Drive(os.Stdin, w, fsdrv.ParseDriveArgs(os.Args[2:]))
 	case "gen":
-		n, _ := strconv.Atoi(os.Args[2])
-		s, ns := shardArgs(os.Args[3:])
-		gen(w, ew, n, s, ns)
+		n := num()
+		s, ns := fsdrv.ShardArgs(os.Args[3:])
+		fsdrv.Gen(w, ew, n, s, ns)
 	case "genx":
-		n, _ := strconv.Atoi(os.Args[2])
-		s, ns := shardArgs(os.Args[3:])
-		genExhaustive(w, ew, n, s, ns)
+		n := num()
+		s, ns := fsdrv.ShardArgs(os.Args[3:])
+		fsdrv.GenExhaustive(w, ew, n, s, ns)
 	case "oracle":
-		n, _ := strconv.Atoi(os.Args[2])
-		s, ns := shardArgs(os.Args[3:])
-		oracle(w, n, s, ns)
+		n := num()
+		s, ns := fsdrv.ShardArgs(os.Args[3:])
+		fsdrv.Oracle(w, n, s, ns)
 	case "refcheck":
 		sc := bufio.NewScanner(os.Stdin)
 		sc.Buffer(make([]byte, 1<<20), 1<<28)
-		refcheck(sc, w)
+		fsdrv.Refcheck(sc, w)
 	default:
 		fmt.Fprintln(os.Stderr, "unknown command", os.Args[1])
 		os.Exit(2)
